@@ -39,6 +39,8 @@ INIT = {
     "meta": (("store_meta", "p1", None, "v0"),),
     "meta2": (("store_meta", "p1", None, "v0"), ("store_meta", "p1", "f2", "v0")),
     "S2unref": (("store_nopid", "S2"),),
+    "ABunref": (("store_nopid", "A"), ("store_nopid", "B")),
+    "p1B": (("store", "p1", "B", None),),
     "p2S2": (("store", "p2", "S2", None),),
     "p1A+meta2": (("store", "p1", "A", None), ("store_meta", "p1", None, "v0"), ("store_meta", "p1", "f2", "v0")),
 }
